@@ -206,6 +206,8 @@ def correspond(ctx, corr):
     route_serial_delivery(ctx, corr, ids, picks, found)
     route_serial_late_in_prefix(ctx, corr, ids)
     route_daliserver_persistent(ctx, corr, ids, picks, allcmds)
+    route_serial_slow_confirm(ctx, corr, ids, picks)
+    route_atx_sequence(ctx, corr, ids, picks, allcmds)
     route_atx_threads(ctx, corr, ids, picks, found)
     corr.exhaustive["hasseb: every status code x (every byte for the protocol's codes 1-3, boundary bytes otherwise)"] = True
     corr.exhaustive["tridonic: every report type x (every status byte for types 0x72/0x77, boundary bytes otherwise)"] = True
@@ -1071,6 +1073,136 @@ def route_serial_late_in_prefix(ctx, corr, ids):
             traces += 1
     corr.count("traces", traces)
     corr.count("serial_late_in_prefix", traces)
+
+
+def route_serial_slow_confirm(ctx, corr, ids, picks):
+    """LUBA / SCI: the gateway confirms each transmission of a frame in its own time (a busy bus; the repeat of a
+    send-twice frame is confirmed one frame time and a gap after the first), always inside the driver's documented
+    `timeout_tx_confirm`.  A send-twice command followed by queries: every send() still gets the answer to its own
+    command — a confirmation that is merely slow must not be left behind for the next command."""
+    traces = 0
+    pool = [picks[k] for k in KINDS]
+    twice = [c for c in pool if c.sendtwice] or pool
+    queries = [c for c in pool if c.response is not None] or pool
+
+    async def scenario(loop, kind, cmds, buses, delays):
+        ss = await sim.SerialSim(kind).start()
+        d = ss.d
+        history, results = [], []
+        pending = {"i": 0}
+
+        def on_write(b):
+            reps = ss.confirmations(b)
+            dl = delays[pending["i"] % len(delays)]
+            pending["i"] += 1
+            t = 0.0
+            for k, rep in enumerate(reps):
+                t += dl[k % len(dl)]
+                loop.call_later(t, ss.feed, rep)
+            history.append("write #%d confirmed after %s ms" % (pending["i"], "+".join(str(round(x * 1000)) for x in dl[:len(reps)])))
+            ss.last_conf_at = loop.time() + t
+        ss.tr.on_write = on_write
+        for i, (c, bus) in enumerate(zip(cmds, buses)):
+            n0 = pending["i"]
+            t = asyncio.ensure_future(d.send(c))
+            await sim.settle(3)
+            # wait until every frame of this command has been written and confirmed
+            for _ in range(60):
+                await asyncio.sleep(0.01)
+                await sim.settle(2)
+                if pending["i"] > n0 and loop.time() >= getattr(ss, "last_conf_at", 0) and \
+                        pending["i"] == getattr(ss, "_seen_writes", -1):
+                    break
+                ss._seen_writes = pending["i"]
+            w = ask(["enc %s %d 0 %s 0" % (kind, c.sendtwice, bus)])[0].split()[1]
+            if w != "T":
+                await asyncio.sleep(0.004)
+                ss.rx([int(w)])
+                history.append("backward frame %d, 4 ms after the last confirmation" % int(w))
+            try:
+                r = "ok " + canon_answer(await asyncio.wait_for(t, 5.0), ids)
+            except BaseException as e:  # noqa
+                r = "err " + type(e).__name__
+            history.append("send %d: %s%s, bus %s -> %s" % (i, c, " (twice)" if c.sendtwice else "", bus, r))
+            results.append((r, list(history)))
+            await sim.settle(2)
+        return results
+
+    rng = ctx.rng
+    n = 80 if ctx.thorough else 24
+    for kind in ("luba", "sci"):
+        lim = 0.9 if kind == "luba" else 0.09
+        choices = [x for x in (0.005, 0.017, 0.03, 0.045, 0.06, 0.2, 0.8) if x < lim]
+        for _ in range(n):
+            cmds = [rng.choice(twice), rng.choice(queries)] + [rng.choice(pool) for _ in range(rng.randrange(0, 3))]
+            buses = [bus_of(rng, c.response) for c in cmds]
+            buses = ["s" if b == "g" else b for b in buses]
+            delays = [(rng.choice(choices), rng.choice(choices)) for _ in range(8)]
+            results = sim.run(scenario, kind, cmds, buses, delays)
+            for (r, hist), c, bus in zip(results, cmds, buses):
+                check_table(corr, kind, c, bus, r, ids,
+                            history={"routing": hist, "command": str(c), "bus": bus, "gateway": "slow confirmations"})
+            traces += 1
+    corr.count("traces", traces)
+    corr.count("serial_slow_confirm", traces)
+
+
+def route_atx_sequence(ctx, corr, ids, picks, allcmds):
+    """ATX LED hat: several commands one after the other on ONE driver object and port.  The hat writes its
+    line(s) for a command when it has put it on the bus; every send() must read exactly the lines of its own
+    command, so that the next one starts on a clean line."""
+    import logging
+    import threading
+    from dali.driver import atxled
+    from dali.gear import general as gg
+    from dali.address import GearShort, GearBroadcast
+    atxled.time = types.SimpleNamespace(sleep=lambda s: None)
+    log = logging.getLogger("verif-atx")
+    log.disabled = True
+    rng = ctx.rng
+
+    class Hat:
+        def __init__(self):
+            self.lines, self.script, self.written = [], [], []
+
+        def write(self, b):
+            self.written.append(bytes(b) if not isinstance(b, str) else b.encode("ascii"))
+            self.lines += self.script.pop(0) if self.script else []
+
+        def read_until(self, term):
+            return (self.lines.pop(0) if self.lines else "").encode("ascii")
+
+        def close(self):
+            pass
+
+    pool16 = [c for c in allcmds if len(c.frame) == 16]
+    levels = [gg.DAPC(GearShort(1), 100), gg.DAPC(GearBroadcast(), 254), gg.DAPC(GearShort(63), 0)]
+    queries = [c for c in pool16 if c.response is not None]
+    n = 0
+    for _ in range(300 if ctx.thorough else 100):
+        cmds = [rng.choice(levels if rng.random() < 0.4 else pool16) for _ in range(rng.randrange(1, 4))] + \
+               [rng.choice(queries)] + [rng.choice(pool16) for _ in range(rng.randrange(0, 2))]
+        buses = ["s" if b == "g" else b for b in (bus_of(rng, c.response) for c in cmds)]
+        drv = object.__new__(atxled.SyncDaliHatDriver)
+        drv.port, drv.lock, drv.buffer, drv.LOG = "fake", threading.RLock(), [], log
+        hat = Hat()
+        drv.conn = hat
+        for c, bus in zip(cmds, buses):
+            toks = ask(["enc atx %d 0 %s 0" % (c.sendtwice, bus)])[0].split()[1:]
+            hat.script.append(["N\n" if t.startswith("N") else "J%02X\n" % int(t.split(".")[1]) for t in toks])
+        history = []
+        for i, (c, bus) in enumerate(zip(cmds, buses)):
+            try:
+                r = "ok " + canon_answer(drv.send(c), ids)
+            except BaseException as e:  # noqa
+                r = "err " + type(e).__name__
+            history.append("send %d: %s, bus %s -> %s" % (i, c, bus, r))
+            check_table(corr, "atx", c, bus, r, ids,
+                        history={"routing": list(history), "port": "one hat, commands in sequence",
+                                 "command": str(c), "bus": bus})
+        n += 1
+    corr.count("traces", n)
+    corr.count("atx_sequence", n)
 
 
 DELIVERY = ["separate", "one-chunk", "back-to-back", "straddled"]
